@@ -73,7 +73,7 @@ c08_valve!(c08_valve_source_2_in_order, false, 2, [0, 1, 2]);
 c08_valve!(c08_valve_source_2_swapped, false, 2, [1, 0, 2]);
 c08_valve!(c08_valve_goldsrc_2_swapped, true, 2, [1, 0, 2]);
 c08_valve!(c08_valve_source_3_last_first, false, 3, [2, 0, 1]);
-c08_valve!(c08_t_valve_source_3_reversed, false, 3, [2, 1, 0]);
+c08_valve!(c08_valve_source_3_reversed, false, 3, [2, 1, 0]);
 c08_valve!(c08_t_valve_source_3_middle_first, false, 3, [1, 0, 2]);
 c08_valve!(c08_t_valve_source_3_021, false, 3, [0, 2, 1]);
 c08_valve!(c08_t_valve_source_3_120, false, 3, [1, 2, 0]);
